@@ -107,6 +107,7 @@ func loadProg(dir string) (*Prog, error) {
 	prog, _ := ssautil.AllPackages(pkgs, ssa.InstantiateGenerics)
 	prog.Build()
 	p.SSA = prog
+	curProg = p
 	for _, sp := range prog.AllPackages() {
 		p.SPkg[sp.Pkg.Path()] = sp
 	}
